@@ -24,7 +24,7 @@ unsafe impl GlobalAlloc for Counting {
         let p = System.alloc(l);
         // memory that is not requested zeroed is handed out poisoned (0xAA): code that reads it before
         // writing it then shows a visible, deterministic difference instead of "usually zero"
-        if !p.is_null() && l.size() <= POISON_LIMIT { std::ptr::write_bytes(p, POISON, l.size()); }
+        if !cfg!(miri) && !p.is_null() && l.size() <= POISON_LIMIT { std::ptr::write_bytes(p, POISON, l.size()); }
         p
     }
     unsafe fn dealloc(&self, p: *mut u8, l: Layout) {
@@ -33,7 +33,7 @@ unsafe impl GlobalAlloc for Counting {
     unsafe fn realloc(&self, p: *mut u8, l: Layout, n: usize) -> *mut u8 {
         ALLOCS.fetch_add(1, Ordering::Relaxed);
         let q = System.realloc(p, l, n);
-        if !q.is_null() && n > l.size() && n - l.size() <= POISON_LIMIT { std::ptr::write_bytes(q.add(l.size()), POISON, n - l.size()); }
+        if !cfg!(miri) && !q.is_null() && n > l.size() && n - l.size() <= POISON_LIMIT { std::ptr::write_bytes(q.add(l.size()), POISON, n - l.size()); }
         q
     }
     unsafe fn alloc_zeroed(&self, l: Layout) -> *mut u8 {
